@@ -80,7 +80,7 @@ def run(tier, seed, replay=None):
     from splipy import state
     rng = random.Random(seed)
     tol = C.fr(state.knot_tolerance)
-    nobj = 130 if tier == 'quick' else 2500
+    nobj = 300 if tier == 'quick' else 2500
     hist_len = 4 if tier == 'quick' else 6
     steps = []
     dist = {'op': {}, 'dim': {}, 'rational': {}, 'errors': {}}
@@ -121,11 +121,11 @@ def run(tier, seed, replay=None):
                     m = rng.choice(HALF_TANS)
                     ch, sh = (1 - m * m) / (1 + m * m), 2 * m / (1 + m * m)
                     ax, nrm = rng.choice(AXES[:2] * 3 + AXES) if dim == 2 else rng.choice(AXES)
-                    lam = rng.choice([Fr(1), Fr(1), Fr(2), Fr(1, 2), Fr(3)])
+                    lam = rng.choice([Fr(1), Fr(1), Fr(2), Fr(1, 2), Fr(3), Fr(1, 2 ** 32), Fr(2 ** 20), Fr(3, 2 ** 30)])   # the axis is a direction: any length
                     args = dict(ch=str(ch), sh=str(sh), normal=[str(lam * a) for a in ax], inv=str(1 / (lam * nrm)))
                 elif op == 'mirror':
                     ax, nrm = rng.choice(AXES)
-                    lam = rng.choice([Fr(1), Fr(2), Fr(1, 2), Fr(-3)])
+                    lam = rng.choice([Fr(1), Fr(2), Fr(1, 2), Fr(-3), Fr(1, 2 ** 32), Fr(-2 ** 20)])
                     args = dict(normal=[str(lam * a) for a in ax], inv=str(1 / (abs(lam) * nrm)))
                 elif op == 'project':
                     args['plane'] = rng.choice(['xy', 'XZ', 'yz', 'x', 'y', 'z', 'xyz', 'Yx'])
